@@ -395,6 +395,15 @@ def handle (toks : List String) : String :=
       let out := (List.range n).map fun k => toPES (fun i => xs.getD i 0.0) (fun i => xs.getD (n + i) 0.0) c k
       s!"ok 2 {n} " ++ showFloats (out.map (·.1) ++ out.map (·.2))
     | _, _, _ => "bad-op"
+  -- topes2 n c vflag vrep zoom pflag photon perEnergy <radial…> <intensity…>  →  toPES with its options (unsorted)
+  | "topes2" :: n :: c :: vf :: v :: z :: pf :: hv :: per :: rest =>
+    match n.toNat?, parseFloat c, parseBool vf, parseFloat v, parseFloat z, parseBool pf, parseFloat hv, parseBool per, parseFloats rest with
+    | some n, some c, some vf, some v, some z, some pf, some hv, some per, some xs =>
+      if xs.size ≠ 2 * n then "bad-op" else
+      let out := (List.range n).map fun k => toPESOpts (fun i => xs.getD i 0.0) (fun i => xs.getD (n + i) 0.0) c
+        (if vf then some v else none) z (if pf then some hv else none) per k
+      s!"ok 2 {n} " ++ showFloats (out.map (·.1) ++ out.map (·.2))
+    | _, _, _, _, _, _, _, _, _ => "bad-op"
   -- com rows cols <pixels…>  →  centre of mass (row, col) of the image, via the two projections
   | "com" :: r :: c :: rest =>
     match r.toNat?, c.toNat?, parseFloats rest with
